@@ -209,7 +209,7 @@ theorem stats_consistent (a qa b qb : Bytes) (minOverlap idn idd : Nat) (r : PER
   simp only [assemble]
   by_cases h : (c.seq.length : Int) - (endRuns r.path).1.natAbs - (endRuns r.path).2.natAbs ≥ minOverlap ∧
       identityOK c.nmatch ((c.seq.length : Int) - (endRuns r.path).1.natAbs - (endRuns r.path).2.natAbs) idn idd = true
-  · simp only [h, and_self, if_true, true_and, forall_const, iff_true, Bool.true_eq_false, false_implies, and_true]
+  · simp only [h, and_self, if_true, true_and, forall_const, Bool.true_eq_false, false_implies, and_true]
     refine ⟨_, _, rfl, rfl, ?_, ?_, ?_, rfl⟩
     · split <;> split <;> omega
     · split <;> split <;> omega
@@ -220,5 +220,34 @@ theorem stats_consistent (a qa b qb : Bytes) (minOverlap idn idd : Nat) (r : PER
 /-- non-vacuity (tests on sample inputs): the consensus of `acgt`/`cgac` along `[-1,3,1,0]` (t/a at equal quality gives `w`) -/
 example : (consensus (fun _ => 0) [97, 99, 103, 116] [40, 40, 30, 40] [99, 103, 97, 99] [40, 40, 40, 40] [-1, 3, 1, 0]).map
     (fun c => (c.seq, c.qual, c.nmatch)) = some ([97, 99, 103, 119, 99], [40, 80, 70, 40, 40], 2) := by decide
+
+/-! ## error-free reassembly (partial) -/
+
+/-- Full claim of the property: two error-free reads overlapping by at least the minimum overlap are
+reassembled into the fragment.  It is false as stated (repeats: several diagonals tie; one read strictly
+inside the other: neither scheme has both overhangs of the same read free — both observed on the real
+code, see the `reassembly.*-containment` finding).  What is proved, for every score table: the exact
+alignment scores at least as much as **any** consuming path `tp` (in particular the true overlap path)
+under both schemes, and if `tp` is the only consuming path reaching the score of `tp` under the scheme
+that was kept, the returned path **is** `tp`.  (That the consensus along the true path of identical
+columns spells the fragment is checked by the oracle only.) -/
+theorem errorfree_reassembly_partial (s : Nat → Nat → Int) (g : Int) (la lb : Nat) (hla : 0 < la) (hlb : 0 < lb)
+    (tp : List Int) (htp : consumes tp la lb) :
+    ∃ res, peAlignExact s g la lb = some res ∧
+      scoreOf s (cALeft g) (cBLeft g la) tp ≤ res.score ∧ scoreOf s (cARight g lb) (cBRight g) tp ≤ res.score ∧
+      (res.isLeft = true → (∀ q, consumes q la lb →
+          scoreOf s (cALeft g) (cBLeft g la) tp ≤ scoreOf s (cALeft g) (cBLeft g la) q → q = tp) → res.path = tp) ∧
+      (res.isLeft = false → (∀ q, consumes q la lb →
+          scoreOf s (cARight g lb) (cBRight g) tp ≤ scoreOf s (cARight g lb) (cBRight g) q → q = tp) → res.path = tp) := by
+  obtain ⟨_, _, _, _, _, res, hres, hc, hs, oL, oR⟩ := pealign_exact s g la lb hla hlb
+  refine ⟨res, hres, oL tp htp, oR tp htp, ?_, ?_⟩
+  · intro hl huniq
+    rw [hl] at hs
+    simp only [if_true] at hs
+    exact huniq res.path hc (by rw [← hs]; exact oL tp htp)
+  · intro hl huniq
+    rw [hl] at hs
+    simp only [Bool.false_eq_true, if_false] at hs
+    exact huniq res.path hc (by rw [← hs]; exact oR tp htp)
 
 end ObiVerif.Props.C08
